@@ -62,7 +62,7 @@ func init() {
 	register(&Prop{
 		ID: "C18",
 		Rule: "every input family of the parser checks (valid and mutated expressions with trailing tokens, valid / truncated / malformed files, errors inside quoted attribute expressions): after the parse call returns, " +
-			"the number of goroutines running parse.(*lexer).run is back to what it was; tie (expression mode): the model of parse.Expr predicts drained-or-consumed for the real token stream; " +
+			"the number of goroutines running parse.(*lexer).run is back to what it was; tie: the models of parse.Expr and parse.SoyFile predict drained-or-consumed for the real token stream; " +
 			"non-trivial = the input has unread trailing tokens or ends in an error",
 		Gen: genC18,
 		Oracle: func(c *Case, impl string) *Viol {
@@ -99,7 +99,8 @@ func genC18(g *G) {
 		g.Add(Case{Req: req("leak", "expr", hxs(src), toks), NT: class != "valid", Class: class, Note: "expr:" + src})
 	}
 	addFile := func(src, class string) {
-		g.Add(Case{Req: req("leak", "file", hxs(src), "-"), NT: class != "valid-file", Class: class, Note: "file:" + src, NoModel: true})
+		toks, hasFloat := itemsWire(src, false)
+		g.Add(Case{Req: req("leak", "file", hxs(src), toks), NT: class != "valid-file", Class: class, Note: "file:" + src, NoModel: hasFloat && !haveF64})
 	}
 	for _, h := range []string{"1 2 3", "1", "", "(", "$a.b c d e f", "'abc", "1 + ", "f(1, 2) g(3)", "[1, 2] [3]", "1 ? 2 : 3 4 5 6 7 8 9"} {
 		addExpr(h, "hand")
@@ -172,13 +173,12 @@ func directC18(g *G, rep *Report) {
 	eg := &exprGen{r: g.R.Fork(), funcs: true, redundantParens: 10, illTyped: 10}
 	for i := 0; i < n; i++ {
 		src := eg.expr(2, tAny) + " " + eg.expr(1, tAny)
-		func() {
-			defer func() { recover() }()
+		guarded(5*time.Second, func() {
 			parse.Expr(src)
 			if i%7 == 0 {
 				parse.SoyFile("f", "{namespace a}\n{template .t}\n{"+src+"\n{/template}")
 			}
-		}()
+		})
 	}
 	time.Sleep(100 * time.Millisecond)
 	grown := runtime.NumGoroutine() - base
